@@ -41,7 +41,7 @@ def relevant(prop, rec, res):
 
 
 T_ENG = "both engines are verified to refine EngineSpec (contracts/engine_spec.py) for every argument-shape configuration the element layer produces"
-T_VIEW = "the ghost view of Network lookups (contracts/ghost.py: what in_links/out_links/origins*/destinations*/nodes_by_link return on a well-formed, valid network) is assumed at the element layer"
+T_VIEW = "the element layer is verified against the ghost view of Network lookups (contracts/ghost.py). What origins, origins_by_node, destinations, destinations_by_node, nodes_by_link and elements return is proved from their real bodies on a symbolic graph (contracts/views_content_tasks.py: present iff such a node/edge exists, with that value; uses validity condition (1)); the per-node views in_links(n)/out_links(n) are verified to ask networkx for the edges at n with data='link' - that networkx then lists exactly the edges entering/leaving n is the assumed library contract; identifying the ghost functions with these results is a hand step"
 
 T_FUN = "casadi.Function: raises unless its inputs are stacks of distinct symbols and no output symbol is free; calling it substitutes arguments for input symbols (assumed contract, pyvc/libmodels/casadi_model.py)"
 T_SPINE = "layout functions are executed on five fixed element lists (spines, 2-8 elements covering every class, repeated classes and both orders) with symbolic segment counts and symbols: bounded in the number of elements"
